@@ -90,20 +90,21 @@ func (c *clientStream) Header() (metadata.MD, error) {
 		select {
 		case <-c.headerC:
 			// we should still return the headers if we have them, even if the context is done
-			return c.header, nil
+			return c.header.Copy(), nil
 		default:
 			// when the stream is terminated without headers, ClientStream should return a nil error
 			return nil, nil
 		}
 	case <-c.headerC:
-		return c.header, nil
+		// a copy, as a real connection gives: the caller may do what it likes with it
+		return c.header.Copy(), nil
 	}
 }
 
 func (c *clientStream) Trailer() metadata.MD {
 	c.trailerM.Lock()
 	defer c.trailerM.Unlock()
-	return c.trailer
+	return c.trailer.Copy()
 }
 
 func (c *clientStream) CloseSend() error {
